@@ -210,6 +210,17 @@ def depth(v):
     return d
 
 
+def shape_of(v):
+    if not isinstance(v, tuple):
+        return ()
+    if not v:
+        return (0,)
+    subs = [shape_of(x) for x in v]
+    if any(x is None or x != subs[0] for x in subs):
+        return None
+    return (len(v),) + subs[0]
+
+
 def is_matrix(v):
     return isinstance(v, tuple) and len(v) > 0 and all(isinstance(r, tuple) and len(r) == len(v[0]) for r in v) and \
         not any(isinstance(x, tuple) for r in v for x in r)
@@ -333,3 +344,1033 @@ def index_nested(base, ix):
         return rec(base, ixs)
     except (Unsupported, IndexError):
         return NotImplemented
+
+
+# ------------------------------------------------------------------------------------------------------------ the evaluator
+class Shared:
+    """state shared by an evaluation and the helper evaluations it inlines"""
+
+    def __init__(self):
+        self.memory = {}       # (buffer symbol name, key of the element index) -> value
+        self.rowlog = []       # (buffer symbol name, element index value, stored value, statement)
+        self.cells = []
+        self.calls = []
+        self.loops = []
+        self.asked = []        # (value of the test, node, decision)
+        self.counter = 0
+        self.modconst = {}
+        self.divs = []         # (numerator value, denominator value, node) of every evaluated division
+
+    def fresh(self):
+        self.counter += 1
+        return self.counter
+
+
+def helpers(ctx, rel, exclude=()):
+    """inline table: the private module-level functions of `rel` (called by bare name).  Public functions are interfaces with a
+    documented meaning of their own; a rule speaks about their call, not about their body."""
+    m = ctx.src.mod(rel)
+    return {q: f for q, f in m.funcs.items() if "." not in q and "#" not in q and q.startswith("_") and q not in exclude}
+
+
+class GeomEval(AutoEvaluator):
+    def __init__(self, fn, ctx, rel, truth=None, decisions=None, env=None, hook=None, sub_hook=None, inline=None, depth=0,
+                 shared=None, alias=None):
+        super().__init__(fn, src=ctx.src, env=env)
+        self.ctx, self.rel, self.fn = ctx, rel, fn
+        self.mod = ctx.src.mod(rel)
+        self.truth = truth
+        self.decisions = decisions
+        self.hook = hook
+        self.sub_hook = sub_hook
+        self.inline = inline or {}
+        self.depth = depth
+        self.sh = shared or Shared()
+        self.cells = self.sh.cells
+        self.calls = self.sh.calls
+        self.alias = dict(alias or {})
+        self.cond = self._oracle
+        self.skip = None
+        self.raised = False
+        self.locals_ = set()
+        if fn is not None:
+            a = fn.args
+            for x in a.posonlyargs + a.args + a.kwonlyargs:
+                self.locals_.add(x.arg)
+            for n in ast.walk(fn):
+                if isinstance(n, ast.Name) and isinstance(n.ctx, ast.Store):
+                    self.locals_.add(n.id)
+
+    # ---------------------------------------------------------------- decisions
+    def _oracle(self, test, ev):
+        v = self.ev(test)
+        r = None
+        if not is_unknown(v) and not isinstance(v, tuple):
+            r = fold_bool(v)
+            if r is None and self.truth is not None:
+                r = self.truth(v, test, self)
+        elif isinstance(v, tuple):
+            r = len(v) > 0
+        if r is not None:
+            self.sh.asked.append((v, test, r))
+            return r
+        compound = isinstance(test, ast.BoolOp) or (isinstance(test, ast.UnaryOp) and isinstance(test.op, ast.Not)) or \
+            (isinstance(test, ast.Compare) and len(test.ops) == 1 and isinstance(test.ops[0], (ast.NotEq, ast.IsNot)))
+        if compound or self.decisions is None:
+            return None
+        k = vkey(v) if not is_unknown(v) and not isinstance(v, tuple) else ("text", ast.unparse(test))
+        if k in self.decisions:
+            r = self.decisions[k]
+            self.sh.asked.append((v, test, r))
+            return r
+        raise NeedDecision(k, test)
+
+    # ---------------------------------------------------------------- names / constants
+    def _module_const(self, name):
+        if name in self.sh.modconst:
+            return self.sh.modconst[name]
+        val = None
+        defs = [st for st in self.mod.tree.body if isinstance(st, ast.Assign) and len(st.targets) == 1
+                and isinstance(st.targets[0], ast.Name) and st.targets[0].id == name]
+        if len(defs) == 1:
+            self.sh.modconst[name] = None      # guards against a cycle
+            sub = GeomEval(None, self.ctx, self.rel, shared=self.sh)
+            v = sub.ev(defs[0].value)
+            if not is_unknown(v):
+                val = v
+        self.sh.modconst[name] = val
+        return val
+
+    def _buf_value(self, name):
+        """the array object a buffer name stands for: the caller's array (helper parameter), the allocation it was created by, or
+        the symbol of its name"""
+        if name in self.alias:
+            return self.alias[name]
+        iv = self.env.get(f"<init:{name}>")
+        if iv is not None and ident(iv) is not None:
+            return iv
+        return F.sym(name)
+
+    def _bufname(self, name):
+        return ident(self._buf_value(name))
+
+    def _elem(self, buf, e):
+        v = self.sh.memory.get((buf, vkey(e)))
+        if v is not None:
+            return v
+        return F.sym(f"{buf}[{e!r}]")
+
+    def _ixval(self, sl):
+        """python-level index: tuple for a[i, j], slice application for a[i:j], value otherwise"""
+        if isinstance(sl, ast.Tuple):
+            return tuple(self._ixval(e) for e in sl.elts)
+        if isinstance(sl, ast.Slice):
+            parts = []
+            for p in (sl.lower, sl.upper, sl.step):
+                if p is None:
+                    parts.append(None)
+                else:
+                    v = self._ev(p)
+                    if is_unknown(v) or isinstance(v, tuple):
+                        raise Unsupported("slice bound")
+                    parts.append(need(v))
+            return slice_value(*parts)
+        v = self._ev(sl)
+        if is_unknown(v):
+            raise Unsupported(v.why)
+        return untuple(v) if is_rat(v) else v
+
+    @staticmethod
+    def _rows_of(ix):
+        """one-dimensional index -> ('one', e) | ('many', [e...]) | None"""
+        if isinstance(ix, tuple):
+            return None
+        s = as_slice(ix)
+        if s is None:
+            return ("one", ix)
+        lo, hi, st = s
+        if st is not None and int_of(st) != 1:
+            return None
+        lo = F.const(0) if lo is None else lo
+        if hi is None:
+            return None
+        n = int_of(hi - lo)
+        if n is None or n <= 0 or n > 12:
+            return None
+        return ("many", [lo + k for k in range(n)])
+
+    def _resolve_rows(self, node):
+        """Subscript chain on a buffer name -> (buffer symbol name, kind, [element index values]) or None"""
+        if not isinstance(node, ast.Subscript):
+            return None
+        try:
+            ix = self._ixval(node.slice)
+        except Unsupported:
+            return None
+        if isinstance(node.value, ast.Name):
+            nm = node.value.id
+            if nm in self.buffers:
+                buf = self._bufname(nm)
+            elif nm in self.env and is_rat(self.env[nm]) and (ident(self.env[nm]) or "").startswith("zeros#"):
+                buf = ident(self.env[nm])
+            else:
+                return None
+            r = self._rows_of(ix)
+            if r is None:
+                return None
+            return buf, r[0], ([r[1]] if r[0] == "one" else r[1])
+        inner = self._resolve_rows(node.value)
+        if inner is None or inner[1] != "many":
+            return None
+        sel = index_nested(tuple(inner[2]), ix)
+        if sel is NotImplemented:
+            return None
+        if isinstance(sel, tuple):
+            return inner[0], "many", list(sel)
+        return inner[0], "one", [sel]
+
+    # ---------------------------------------------------------------- expressions
+    def _ev(self, node):
+        if isinstance(node, ast.Name):
+            if node.id in self.buffers:
+                return self._buf_value(node.id)
+            if node.id not in self.env and node.id not in self.locals_:
+                mc = self._module_const(node.id)
+                if mc is not None:
+                    return mc
+            return super()._ev(node)
+        if isinstance(node, ast.NamedExpr):
+            v = self.ev(node.value)
+            self._assign(node.target, v, node)
+            return v
+        if isinstance(node, ast.Attribute):
+            if node.attr == "T":
+                b = self._ev(node.value)
+                return self._transpose(b)
+            if node.attr in IDENT_ATTRS:
+                return self._ev(node.value)
+            if node.attr in ("ndim", "shape", "size") and isinstance(node.value, ast.Name) and node.value.id in self.env \
+                    and isinstance(self.env[node.value.id], tuple) and node.value.id not in self.buffers:
+                sh = shape_of(self.env[node.value.id])
+                if sh is not None:
+                    if node.attr == "ndim":
+                        return F.const(len(sh))
+                    if node.attr == "size":
+                        return F.const(math.prod(sh))
+                    return tuple(F.const(k) for k in sh)
+            return super()._ev(node)
+        if isinstance(node, ast.UnaryOp) and isinstance(node.op, ast.USub):
+            v = self._ev(node.operand)
+            return neg(v)
+        if isinstance(node, ast.UnaryOp) and isinstance(node.op, (ast.Not, ast.Invert)):
+            v = self._ev(node.operand)
+            if isinstance(v, tuple):
+                return tuple(x if is_unknown(x) else F.fn("not", need(x)) for x in v) if is_vector(v) else Unknown("not of an array")
+            if is_unknown(v):
+                return v
+            b = fold_bool(v)
+            if b is not None:
+                return FALSE if b else TRUE
+            return F.fn("not", need(v))
+        if isinstance(node, ast.Compare):
+            vals = [self._ev(node.left)] + [self._ev(c) for c in node.comparators]
+            if any(is_unknown(v) for v in vals):
+                return next(v for v in vals if is_unknown(v))
+            parts = [compare(type(op).__name__, a, b) for op, a, b in zip(node.ops, vals, vals[1:])]
+            if len(parts) == 1:
+                return parts[0]
+            if any(is_unknown(p) or isinstance(p, tuple) for p in parts):
+                return Unknown("chained comparison of arrays")
+            return F.fn("bool:And", *parts)
+        if isinstance(node, ast.BoolOp):
+            vs = [self._ev(v) for v in node.values]
+            if any(is_unknown(v) or isinstance(v, tuple) for v in vs):
+                return next((v for v in vs if is_unknown(v)), Unknown("bool of arrays"))
+            return F.fn("bool:" + type(node.op).__name__, *[need(v) for v in vs])
+        if isinstance(node, ast.BinOp):
+            if isinstance(node.op, ast.MatMult):
+                return matmul(self._ev(node.left), self._ev(node.right))
+            if isinstance(node.op, (ast.FloorDiv, ast.Mod)):
+                a, b = self._ev(node.left), self._ev(node.right)
+                if is_unknown(a) or is_unknown(b) or isinstance(a, tuple) or isinstance(b, tuple):
+                    return a if is_unknown(a) else (b if is_unknown(b) else Unknown("integer operator on arrays"))
+                ca, cb = const_of(a), const_of(b)
+                if ca is not None and cb is not None and cb != 0:
+                    return F.const(ca // cb if isinstance(node.op, ast.FloorDiv) else ca % cb)
+                return F.fn("floordiv" if isinstance(node.op, ast.FloorDiv) else "mod", need(a), need(b))
+            if isinstance(node.op, ast.Div):
+                a, b = self._ev(node.left), self._ev(node.right)
+                self.sh.divs.append((a, b, node))
+                if is_unknown(a) or is_unknown(b):
+                    return a if is_unknown(a) else b
+                return elementwise(_div, a, b)
+            return super()._ev(node)
+        if isinstance(node, ast.Subscript):
+            return self._subscript(node)
+        if isinstance(node, (ast.ListComp, ast.GeneratorExp, ast.SetComp, ast.DictComp, ast.Dict, ast.Set, ast.Lambda, ast.JoinedStr)):
+            return F.fn("opaque", f"#{self.sh.fresh()}")
+        return super()._ev(node)
+
+    def _transpose(self, b):
+        if is_unknown(b):
+            return b
+        if isinstance(b, tuple):
+            return transpose(b)
+        p = fn_parts(b)
+        if p is not None and p[0] == "attr:T":
+            return p[1][0]
+        return F.fn("attr:T", need(b))
+
+    def _subscript(self, node):
+        rr = self._resolve_rows(node)
+        if rr is not None:
+            buf, kind, rows = rr
+            vals = tuple(self._elem(buf, e) for e in rows)
+            return vals[0] if kind == "one" else vals
+        base = self._ev(node.value)
+        if is_unknown(base):
+            return base
+        try:
+            ix = self._ixval(node.slice)
+        except Unsupported as e:
+            return Unknown(str(e))
+        if self.sub_hook is not None:
+            r = self.sub_hook(base, ix, node, self)
+            if r is not NotImplemented:
+                return r
+        if isinstance(base, tuple):
+            r = index_nested(base, ix)
+            if r is NotImplemented:
+                return Unknown(f"index of a dense array {ast.unparse(node.slice)}")
+            return r
+        if not isinstance(ix, tuple) and as_slice(ix) is not None:
+            rows = self._rows_of(ix)
+            if rows is not None and rows[0] == "many":
+                return tuple(F.fn("idx", need(base), e) for e in rows[1])
+        try:
+            return F.fn("idx", need(base), wrap_index(ix))
+        except Unsupported as e:
+            return Unknown(str(e))
+
+    # ---------------------------------------------------------------- calls
+    def callee(self, func):
+        name = dotted(func)
+        if isinstance(func, ast.Name) and func.id in self.env and func.id not in self.buffers:
+            d = single_atom(self.env[func.id]) if is_rat(self.env[func.id]) else None
+            if d is not None and d[0] == "s":
+                return d[1]
+        if isinstance(func, ast.Name) and func.id not in self.env and func.id not in self.locals_ and func.id not in self.inline:
+            mc = self._module_const(func.id)
+            d = single_atom(mc) if is_rat(mc) else None
+            if d is not None and d[0] == "s":
+                return d[1]
+        return name
+
+    def _args(self, node):
+        pos = [self.ev(a) for a in node.args if not isinstance(a, ast.Starred)]
+        kws = {k.arg: self.ev(k.value) for k in node.keywords if k.arg is not None}
+        return pos, kws
+
+    def _opaque(self, v):
+        if is_unknown(v):
+            return F.fn("opaque", f"#{self.sh.fresh()}")
+        return wrap(v) if not (isinstance(v, tuple) and any_unknown(v)) else F.fn("opaque", f"#{self.sh.fresh()}")
+
+    def _call(self, node):
+        name = self.callee(node.func)
+        if self.hook is not None:
+            r = self.hook(name, node, self)
+            if r is not NotImplemented:
+                return r
+        if name in self.inline and self.inline[name] is not self.fn and self.depth < 4:
+            r = self._inline(self.inline[name], node)
+            if r is not NotImplemented:
+                return r
+        meth = node.func.attr if isinstance(node.func, ast.Attribute) else None
+        nargs = len(node.args)
+        # ---- library idioms with a value of their own
+        if name in DOT and nargs == 2:
+            return matmul(self.ev(node.args[0]), self.ev(node.args[1]))
+        if name == "np.transpose" and nargs == 1:
+            return self._transpose(self.ev(node.args[0]))
+        if name in HYPOT and nargs == 2:
+            a, b = self.ev(node.args[0]), self.ev(node.args[1])
+            return elementwise(lambda x, y: F.sqrt(x * x + y * y), a, b)
+        if name in ATAN2 and nargs == 2:
+            self._record(name, node)
+            a, b = self.ev(node.args[0]), self.ev(node.args[1])
+            return elementwise(lambda x, y: F.fn("atan2", x, y), a, b)
+        if name in NORM and nargs == 1 and not node.keywords:
+            v = self.ev(node.args[0])
+            if is_vector(v) and not any_unknown(v):
+                tot = F.const(0)
+                for x in v:
+                    tot = tot + need(x) * need(x)
+                return F.sqrt(tot)
+        if name in ABS and nargs == 1:
+            v = self.ev(node.args[0])
+            return map_value(lambda x: F.fn("abs", x), v)
+        if (name in ANY or name in ALL) and nargs == 1:
+            v = self.ev(node.args[0])
+            if not is_unknown(v) and not (isinstance(v, tuple) and any_unknown(v)):
+                return F.fn("any" if name in ANY else "all", wrap(v))
+        if meth in ("any", "all") and nargs == 0 and name not in self.inline:
+            v = self.ev(node.func.value)
+            if not is_unknown(v) and not (isinstance(v, tuple) and any_unknown(v)):
+                return F.fn(meth, wrap(v))
+        if name == "slice" and 1 <= nargs <= 3:
+            vs = [self.ev(a) for a in node.args]
+            if not any(is_unknown(v) or isinstance(v, tuple) for v in vs):
+                vs = [None if same(v, NONE) else v for v in vs]
+                if len(vs) == 1:
+                    vs = [None, vs[0], None]
+                elif len(vs) == 2:
+                    vs = vs + [None]
+                return slice_value(*vs)
+        if name in self.funcs and nargs == 1:
+            v = self.ev(node.args[0])
+            return map_value(self.funcs[name], v)
+        if name in ("np.zeros", "np.zeros_like", "np.empty", "np.empty_like"):
+            self._record(name, node)
+            return F.fn("zeros", f"#{self.sh.fresh()}")
+        if name in IDENT_FUNCS and nargs >= 1:
+            return self.ev(node.args[0])
+        if meth in IDENT_METHODS:
+            return self.ev(node.func.value)
+        if meth == "dot" and nargs == 1:
+            return matmul(self.ev(node.func.value), self.ev(node.args[0]))
+        if meth == "transpose" and nargs == 0:
+            return self._transpose(self.ev(node.func.value))
+        if meth in ("append", "extend") and nargs == 1 and isinstance(node.func.value, ast.Name) and node.func.value.id in self.env \
+                and isinstance(self.env[node.func.value.id], tuple) and node.func.value.id not in self.buffers:
+            v = self.ev(node.args[0])
+            self._record(name, node)
+            cur = self.env[node.func.value.id]
+            self.env[node.func.value.id] = cur + ((v,) if meth == "append" else (tuple(v) if isinstance(v, tuple) else (v,)))
+            return NONE
+        if name == "len" and nargs == 1:
+            v = self.ev(node.args[0])
+            if isinstance(v, tuple):
+                return F.const(len(v))
+        if name in ("tuple", "list") and nargs == 1:
+            v = self.ev(node.args[0])
+            if isinstance(v, tuple):
+                return v
+        # ---- anything else: an opaque application of the argument values
+        self._record(name if name is not None else ("." + meth if meth else None), node)
+        args = []
+        cname = name
+        if isinstance(node.func, ast.Attribute):
+            root = node.func.value
+            while isinstance(root, (ast.Attribute, ast.Subscript, ast.Call)):
+                root = root.value if not isinstance(root, ast.Call) else root.func
+            local = isinstance(root, ast.Name) and (root.id in self.env or root.id in self.buffers)
+            if name is None or local:
+                args.append(self._opaque(self.ev(node.func.value)))
+                cname = "." + node.func.attr
+        if cname is None:
+            return F.fn("opaque", f"#{self.sh.fresh()}")
+        for a in node.args:
+            if isinstance(a, ast.Starred):
+                args.append(F.fn("star", self._opaque(self.ev(a.value))))
+            else:
+                args.append(self._opaque(self.ev(a)))
+        for k in node.keywords:
+            args.append(F.fn("kw:" + str(k.arg), self._opaque(self.ev(k.value))))
+        return F.fn("call:" + cname, *args)
+
+    def _record(self, name, node):
+        if name is None:
+            return
+        pos, kws = self._args(node)
+        self.calls.append((name, pos, kws, node))
+
+    def _inline(self, fn, node):
+        a = fn.args
+        params = [x.arg for x in a.posonlyargs + a.args]
+        if a.vararg or a.kwarg or any(isinstance(x, ast.Starred) for x in node.args) or any(k.arg is None for k in node.keywords):
+            return NotImplemented
+        if len(node.args) > len(params):
+            return NotImplemented
+        env, alias = {}, {}
+        kwonly = [x.arg for x in a.kwonlyargs]
+
+        def bind(p_, x):
+            v = self.ev(x)
+            env[p_] = v
+            if is_rat(v) and ident(v) is not None:
+                alias[p_] = v          # an array handed to the helper: the helper's stores go to the caller's array
+        for p_, x in zip(params, node.args):
+            bind(p_, x)
+        for k in node.keywords:
+            if k.arg not in params and k.arg not in kwonly:
+                return NotImplemented
+            bind(k.arg, k.value)
+        dflt = dict(zip(params[::-1], (a.defaults or [])[::-1]))
+        for p_ in params:
+            if p_ not in env:
+                if p_ not in dflt:
+                    return NotImplemented
+                env[p_] = self.ev(dflt[p_])
+        for p_, d in zip(kwonly, a.kw_defaults):
+            if p_ not in env and d is not None:
+                env[p_] = self.ev(d)
+        sub = GeomEval(fn, self.ctx, self.rel, truth=self.truth, decisions=self.decisions, env=env, hook=self.hook,
+                       sub_hook=self.sub_hook, inline=self.inline, depth=self.depth + 1, shared=self.sh, alias=alias)
+        self.ctx.src.funcs_consulted.add(f"{self.rel}:{fn.name}")
+        sub.run(fn.body)
+        if sub.raised:
+            self.raised = True
+            self.done = True
+            return Unknown("helper raised")
+        rets = sub.returns
+        if not rets:
+            return NONE
+        if len(rets) != 1:
+            return Unknown(f"several returns in {fn.name}")
+        v = rets[0][0]
+        if v is None:
+            return NONE
+        if is_rat(v):
+            d = single_atom(v)
+            if d is not None and d[0] == "s" and d[1] in sub.buffers and d[1] not in alias:
+                # a buffer created in the helper: its elements live in the shared memory under the helper's name; hand over the
+                # creating expression when nothing was stored
+                if not any(c[0] == d[1] for c in self.sh.cells) and not any(r[0] == d[1] for r in self.sh.rowlog) \
+                        and f"<init:{d[1]}>" in sub.env:
+                    v = sub.env[f"<init:{d[1]}>"]
+        return v
+
+    # ---------------------------------------------------------------- statements
+    def run(self, stmts):
+        for st in stmts:
+            if self.done or self.skip:
+                break
+            self.stmt(st)
+
+    def stmt(self, st):
+        if self.done or self.skip:
+            return
+        if isinstance(st, ast.Expr):
+            if isinstance(st.value, (ast.Call, ast.NamedExpr)):
+                self.ev(st.value)
+            return
+        if isinstance(st, ast.For):
+            return self._for(st)
+        if isinstance(st, ast.While):
+            return self._while(st)
+        if isinstance(st, ast.With):
+            for it in st.items:
+                v = self.ev(it.context_expr)
+                if it.optional_vars is not None:
+                    self._assign(it.optional_vars, v, st)
+            return self.run(st.body)
+        if isinstance(st, ast.Try):
+            self.run(st.body)
+            self.run(st.orelse)
+            return self.run(st.finalbody)
+        if isinstance(st, ast.Raise):
+            self.raised = True
+            self.done = True
+            return
+        if isinstance(st, ast.Continue):
+            self.skip = "continue"
+            return
+        if isinstance(st, ast.Break):
+            self.skip = "break"
+            return
+        if isinstance(st, (ast.FunctionDef, ast.AsyncFunctionDef, ast.ClassDef)):
+            return
+        return super().stmt(st)
+
+    def _const_items(self, it):
+        if isinstance(it, tuple):
+            return list(it)
+        p = fn_parts(it) if is_rat(it) else None
+        if p is not None and p[0] in ("call:range", "call:np.arange"):
+            ks = [int_of(a) if is_rat(a) else None for a in p[1]]
+            if ks and all(k is not None for k in ks) and len(ks) <= 3:
+                r = range(*ks)
+                if len(r) <= 64:
+                    return [F.const(k) for k in r]
+        return None
+
+    def _loop_open(self, st, it):
+        rec = {"node": st, "iter": it, "var": None, "cells": [len(self.cells), None], "calls": [len(self.calls), None],
+               "rows": [len(self.sh.rowlog), None], "asked": [len(self.sh.asked), None], "depth": self.depth}
+        self.sh.loops.append(rec)
+        return rec
+
+    def _loop_close(self, rec):
+        rec["cells"][1] = len(self.cells)
+        rec["calls"][1] = len(self.calls)
+        rec["rows"][1] = len(self.sh.rowlog)
+        rec["asked"][1] = len(self.sh.asked)
+
+    def _for(self, st):
+        it = self.ev(st.iter)
+        rec = self._loop_open(st, it)
+        items = None if is_unknown(it) else self._const_items(it)
+        if items is None:
+            x = F.sym(f"<elem{self.sh.fresh()}>")
+            p = fn_parts(it) if is_rat(it) else None
+            if p is not None and p[0] == "call:enumerate" and isinstance(st.target, ast.Tuple) and len(st.target.elts) == 2:
+                x = (F.sym(f"<pos{self.sh.fresh()}>"), x)
+            items = [x]
+            rec["generic"] = True
+        for x in items:
+            rec["var"] = x
+            self._assign(st.target, x, st)
+            self.run(st.body)
+            if self.done:
+                break
+            sk, self.skip = self.skip, None
+            if sk == "break":
+                break
+        self._loop_close(rec)
+
+    def _while(self, st):
+        rec = self._loop_open(st, None)
+        for _ in range(64):
+            v = self.ev(st.test)
+            b = fold_bool(v) if is_rat(v) else None
+            if b is False:
+                break
+            self.run(st.body)
+            if self.done:
+                break
+            sk, self.skip = self.skip, None
+            if sk == "break" or b is None:
+                rec["generic"] = b is None
+                break
+        self._loop_close(rec)
+
+    def _assign(self, target, v, st, aug=False):
+        if isinstance(target, ast.Subscript):
+            rr = self._resolve_rows(target)
+            if rr is not None:
+                buf, kind, rows = rr
+                if kind == "one":
+                    vals = [v]
+                elif isinstance(v, tuple) and len(v) == len(rows):
+                    vals = list(v)
+                elif isinstance(v, tuple):
+                    vals = [Unknown("shape of the stored value")] * len(rows)
+                else:
+                    vals = [v] * len(rows)
+                for e, x in zip(rows, vals):
+                    self.sh.memory[(buf, vkey(e))] = x
+                    self.sh.rowlog.append((buf, e, x, st))
+                return
+            root = target.value
+            while isinstance(root, ast.Subscript):
+                root = root.value
+            if isinstance(root, ast.Name) and root.id in self.buffers and root is target.value:
+                try:
+                    ix = self._ixval(target.slice)
+                except Unsupported as e:
+                    ix = Unknown(str(e))
+                self.cells.append((self._bufname(root.id), ix, v, st))
+                return
+            self.cells.append((None, Unknown("store through an expression"), v, st))
+            return
+        if isinstance(target, (ast.Tuple, ast.List)) and not isinstance(v, tuple) and is_rat(v):
+            for k, t in enumerate(target.elts):
+                self._assign(t, F.fn("idx", v, F.const(k)), st)
+            return
+        return super()._assign(target, v, st, aug)
+
+    # ---------------------------------------------------------------- access for rules
+    def init(self, name):
+        return self.env.get(f"<init:{name}>")
+
+    def ret(self):
+        return self.returns[-1][0] if self.returns else None
+
+
+def ident(v):
+    """identity of an array object: the name of a symbol or the serial number of an allocation"""
+    d = single_atom(v) if is_rat(v) else None
+    if d is None:
+        return None
+    if d[0] == "s":
+        return d[1]
+    if d[0] == "fn" and d[1] == "zeros":
+        return "zeros" + d[2][0]
+    return None
+
+
+def _div(a, b):
+    if b.is_zero():
+        raise Unsupported("division by zero")
+    return a / b
+
+
+def any_unknown(v):
+    if isinstance(v, tuple):
+        return any(any_unknown(x) for x in v)
+    return is_unknown(v) or v is None
+
+
+def wrap_index(ix):
+    if isinstance(ix, tuple):
+        return F.fn("tuple", *[wrap_index(x) for x in ix])
+    return need(ix)
+
+
+def neg(v):
+    if isinstance(v, tuple):
+        return tuple(neg(x) for x in v)
+    if is_unknown(v):
+        return v
+    return -need(v)
+
+
+def map_value(f, v):
+    if isinstance(v, tuple):
+        return tuple(map_value(f, x) for x in v)
+    if is_unknown(v):
+        return v
+    try:
+        return f(need(v))
+    except Unsupported as e:
+        return Unknown(str(e))
+
+
+_FLIP = {"Lt": ("Gt", True), "LtE": ("GtE", True)}
+
+
+def compare(op, a, b):
+    if isinstance(a, tuple) or isinstance(b, tuple):
+        if op in ("Is", "IsNot") and (same(a, NONE) or same(b, NONE)):
+            return FALSE if op == "Is" else TRUE
+        if op in ("In", "NotIn"):
+            return Unknown("membership")
+        return elementwise(lambda x, y: compare(op, x, y), a, b)
+    ca, cb = const_of(a), const_of(b)
+    if ca is not None and cb is not None and op in ("Eq", "NotEq", "Lt", "LtE", "Gt", "GtE"):
+        r = {"Eq": ca == cb, "NotEq": ca != cb, "Lt": ca < cb, "LtE": ca <= cb, "Gt": ca > cb, "GtE": ca >= cb}[op]
+        return TRUE if r else FALSE
+    if same(a, b):
+        if op in ("Eq", "Is", "LtE", "GtE"):
+            return TRUE
+        if op in ("NotEq", "IsNot", "Lt", "Gt"):
+            return FALSE
+    if op in ("Is", "IsNot") and ((same(a, NONE) and cb is not None) or (same(b, NONE) and ca is not None)):
+        return FALSE if op == "Is" else TRUE
+    if op in _FLIP:
+        op, _ = _FLIP[op]
+        a, b = b, a
+    if op == "NotEq":
+        return F.fn("not", F.fn("cmp:Eq", *sorted_pair(a, b)))
+    if op == "IsNot":
+        return F.fn("not", F.fn("cmp:Is", *sorted_pair(a, b)))
+    if op in ("Eq", "Is"):
+        return F.fn("cmp:" + op, *sorted_pair(a, b))
+    return F.fn("cmp:" + op, need(a), need(b))
+
+
+def sorted_pair(a, b):
+    a, b = need(a), need(b)
+    return (a, b) if repr(vkey(a)) <= repr(vkey(b)) else (b, a)
+
+
+def fold_bool(v):
+    """truth of a value that is decided without any assumption, else None"""
+    if not is_rat(v):
+        return None
+    if same(v, TRUE):
+        return True
+    if same(v, FALSE) or same(v, NONE):
+        return False
+    c = const_of(v)
+    if c is not None:
+        return c != 0
+    p = fn_parts(v)
+    if p is None:
+        return None
+    if p[0] == "not":
+        r = fold_bool(p[1][0])
+        return None if r is None else (not r)
+    if p[0] in ("bool:And", "bool:Or"):
+        rs = [fold_bool(a) for a in p[1]]
+        if p[0] == "bool:And":
+            if any(r is False for r in rs):
+                return False
+            return True if all(r is True for r in rs) else None
+        if any(r is True for r in rs):
+            return True
+        return False if all(r is False for r in rs) else None
+    if p[0] == "zeros":
+        return None
+    return None
+
+
+def truth_of(v, atom):
+    """three-valued truth of a test value from the truth of its atoms (`atom(value) -> True | False | None`): not / and / or are
+    composed here, so a rule states its regime once, whatever the spelling of the test"""
+    r = fold_bool(v)
+    if r is not None:
+        return r
+    r = atom(v)
+    if r is not None:
+        return r
+    p = fn_parts(v) if is_rat(v) else None
+    if p is None:
+        return None
+    if p[0] == "not":
+        r = truth_of(p[1][0], atom)
+        return None if r is None else (not r)
+    if p[0] in ("bool:And", "bool:Or"):
+        rs = [truth_of(a, atom) for a in p[1]]
+        if p[0] == "bool:And":
+            if any(r is False for r in rs):
+                return False
+            return True if all(r is True for r in rs) else None
+        if any(r is True for r in rs):
+            return True
+        return False if all(r is False for r in rs) else None
+    return None
+
+
+def explore(ctx, rel, fn, truth=None, hook=None, sub_hook=None, env=None, inline=None, presets=None, max_paths=MAX_PATHS):
+    """one finished evaluation per regime of `fn`"""
+    done = []
+    stack = [dict(presets or {})]
+    n = 0
+    while stack:
+        dec = stack.pop()
+        n += 1
+        if n > 4 * max_paths or len(done) > max_paths:
+            raise Unsupported(f"more than {max_paths} regimes in {fn.name}")
+        ev = GeomEval(fn, ctx, rel, truth=truth, decisions=dec, env=dict(env or {}), hook=hook, sub_hook=sub_hook, inline=inline)
+        try:
+            ev.run(fn.body)
+        except NeedDecision as e:
+            for b in (False, True):
+                d2 = dict(dec)
+                d2[e.key] = b
+                stack.append(d2)
+            continue
+        done.append(ev)
+    return done
+
+
+# ------------------------------------------------------------------------------------- exact evaluation at a witness point
+class Undecided(Exception):
+    pass
+
+
+_SCALE = 10 ** 30
+_MARGIN = Fraction(1, 10 ** 15)
+
+
+def csqrt(q):
+    q = Fraction(q)
+    if q < 0:
+        raise Undecided("square root of a negative number")
+    n, d = q.numerator, q.denominator
+    rn, rd = math.isqrt(n), math.isqrt(d)
+    if rn * rn == n and rd * rd == d:
+        return Fraction(rn, rd)
+    return Fraction(math.isqrt(n * _SCALE * _SCALE // d), _SCALE)
+
+
+def _cmp(op, a, b):
+    if a != b and abs(a - b) < _MARGIN:
+        raise Undecided("comparison within the evaluation margin")
+    return {"Gt": a > b, "GtE": a >= b, "Eq": a == b, "Is": a == b, "Lt": a < b, "LtE": a <= b}[op]
+
+
+def conc(v, assign):
+    """value of a formula at a point: `assign` maps atom ids to Fractions; booleans are 1 / 0; raises Undecided"""
+    if isinstance(v, tuple):
+        return tuple(conc(x, assign) for x in v)
+    if is_unknown(v) or v is None:
+        raise Undecided("unknown value")
+    d = _cpoly(v.d, assign)
+    if d == 0:
+        raise Undecided("division by zero at the point")
+    return _cpoly(v.n, assign) / d
+
+
+def _cpoly(p, assign):
+    tot = Fraction(0)
+    for m, c in p.t.items():
+        term = Fraction(c)
+        for a, e in m:
+            term *= _catom(a, assign) ** e
+        tot += term
+    return tot
+
+
+def _cargs(d, assign):
+    out = []
+    for k in d[2]:
+        if isinstance(k, str):
+            raise Undecided("string argument")
+        out.append(conc(_arg(k), assign))
+    return out
+
+
+def _flat(x):
+    if isinstance(x, tuple):
+        for y in x:
+            yield from _flat(y)
+    else:
+        yield x
+
+
+def _catom(a, assign):
+    if a in assign:
+        return Fraction(assign[a])
+    d = F.atom_desc(a)
+    k = d[0]
+    if k == "s":
+        if d[1] == "True":
+            return Fraction(1)
+        if d[1] in ("False", "None"):
+            return Fraction(0)
+        raise Undecided(f"free symbol {d[1]}")
+    if k == "sqrt":
+        return csqrt(_cpoly(F._poly_from_key(d[1]), assign))
+    if k in ("sin", "cos"):
+        arg = F._poly_from_key(d[1])
+        at = single_atom(F.Rat(arg))
+        if at is not None and at[0] == "fn" and at[1] == "atan2":
+            y, x = _cargs(at, assign)
+            h = csqrt(x * x + y * y)
+            if h == 0:
+                return Fraction(0) if k == "sin" else Fraction(1)     # atan2(0, 0) is 0
+            return (y if k == "sin" else x) / h
+        val = _cpoly(arg, assign)
+        if val == 0:
+            return Fraction(0) if k == "sin" else Fraction(1)
+        raise Undecided("trigonometric function of a number")
+    if k == "fn":
+        nm = d[1]
+        if nm == "abs":
+            return abs(_cargs(d, assign)[0])
+        if nm.startswith("cmp:"):
+            x, y = _cargs(d, assign)
+            return Fraction(int(_cmp(nm[4:], x, y)))
+        if nm == "not":
+            return Fraction(int(_cargs(d, assign)[0] == 0))
+        if nm in ("bool:And", "all"):
+            return Fraction(int(all(x != 0 for x in _flat(_cargs_t(d, assign)))))
+        if nm in ("bool:Or", "any"):
+            return Fraction(int(any(x != 0 for x in _flat(_cargs_t(d, assign)))))
+        if nm in ("call:max", "call:np.max", "call:np.amax", "call:np.maximum"):
+            return max(_flat(_cargs_t(d, assign)))
+        if nm in ("call:min", "call:np.min", "call:np.amin", "call:np.minimum"):
+            return min(_flat(_cargs_t(d, assign)))
+        if nm in ("call:np.count_nonzero",):
+            return Fraction(sum(1 for x in _flat(_cargs_t(d, assign)) if x != 0))
+        if nm in ("call:np.sum", "call:sum"):
+            return sum(_flat(_cargs_t(d, assign)), Fraction(0))
+        if nm in ("call:np.allclose", "call:np.array_equal") and len(d[2]) == 2:
+            x, y = _cargs_t(d, assign)
+            xs, ys = list(_flat(x)), list(_flat(y))
+            if len(ys) == 1:
+                ys = ys * len(xs)
+            if len(xs) != len(ys):
+                raise Undecided("shapes")
+            if nm.endswith("allclose") and any(p != q and abs(p - q) < Fraction(1, 10 ** 4) for p, q in zip(xs, ys)):
+                raise Undecided("allclose near its tolerance")
+            return Fraction(int(all(p == q for p, q in zip(xs, ys))))
+        raise Undecided(f"application {nm}")
+    raise Undecided(f"atom {k}")
+
+
+def _cargs_t(d, assign):
+    """arguments with tuple(...) applications expanded to python tuples"""
+    out = []
+    for k in d[2]:
+        if isinstance(k, str):
+            raise Undecided("string argument")
+        out.append(conc(untuple(_arg(k)), assign))
+    return out
+
+
+# ----------------------------------------------------------------------------------------- re-evaluation under a parametrisation
+def rebuild(v, leaf, atan2=None):
+    """the value with atoms replaced by `leaf[atom id]` and every application re-applied to the rebuilt arguments; atan2 applications go
+    through `atan2(y, x)` (a rule's simplification under its stated sign assumptions)"""
+    if isinstance(v, tuple):
+        return tuple(rebuild(x, leaf, atan2) for x in v)
+    if not is_rat(v):
+        return v
+    memo = {}
+
+    def poly(p):
+        res = F.const(0)
+        for m, c in p.t.items():
+            term = F.const(c)
+            for a, e in m:
+                term = term * (atom(a) ** e)
+            res = res + term
+        return res
+
+    def atom(a):
+        if a in memo:
+            return memo[a]
+        if a in leaf:
+            r = leaf[a]
+        else:
+            d = F.atom_desc(a)
+            if d[0] == "s":
+                r = atom_rat(a)
+            elif d[0] in ("exp", "sin", "cos", "sqrt"):
+                arg = poly(F._poly_from_key(d[1]))
+                r = {"exp": F.exp, "sin": F.sin, "cos": F.cos, "sqrt": F.sqrt}[d[0]](arg)
+            elif d[0] == "fn":
+                args = [k if isinstance(k, str) else poly(F._poly_from_key(k[1])) / poly(F._poly_from_key(k[2])) for k in d[2]]
+                if d[1] == "atan2" and atan2 is not None and len(args) == 2:
+                    r = atan2(args[0], args[1])
+                else:
+                    r = F.fn(d[1], *args)
+            else:
+                raise Unsupported(f"atom {d[0]}")
+        memo[a] = r
+        return r
+    return poly(v.n) / poly(v.d)
+
+
+def atan2_rule(angles, positives):
+    """atan2(k sin u, k cos u) = u  for an angle u of `angles` and a factor k that is one of `positives` (quantities the property's
+    domain makes positive); = u + pi for -k.  Anything else stays an atan2 application."""
+    pi = F.sym("pi")
+
+    def rule(y, x):
+        for u in angles:
+            try:
+                su, cu = F.sin(u), F.cos(u)
+                if not (y * cu - x * su).is_zero():
+                    continue
+                for p in positives:
+                    if (y - p * su).is_zero() and (x - p * cu).is_zero():
+                        return u
+                    if (y + p * su).is_zero() and (x + p * cu).is_zero():
+                        return u + pi
+            except Unsupported:
+                continue
+        return F.fn("atan2", y, x)
+    return rule
+
+
+def linear_in(v, syms):
+    """coefficients of a value that is linear and homogeneous in the symbols `syms` (names), else None"""
+    if not is_rat(v):
+        return None
+    try:
+        cs = [v.diff(s) for s in syms]
+        rest = v
+        for c, s in zip(cs, syms):
+            rest = rest - c * F.sym(s)
+            if any(c.depends_on(t) for t in syms):
+                return None
+        if not rest.is_zero():
+            return None
+        return cs
+    except Unsupported:
+        return None
